@@ -155,7 +155,7 @@ def strategy(tier, stratum):
     return _case(stratum)
 
 
-ENUM_SPACE = "both ends of every documented range of evo_wash / evo_aspirate / evo_dispense (on the end: accepted, one step outside: refused); every order of 3 tips x every order of 3 wells (36), and every order of 4 tips x every order of 4 wells (576; quick: a stride sample of 96), with pairwise different per-tip volumes, on a plate and on a trough"
+ENUM_SPACE = "all 127 selection characters (patterns of A01..G01 on an 8x12 plate); both ends of every documented range of evo_wash / evo_aspirate / evo_dispense (on the end: accepted, one step outside: refused); every order of 3 tips x every order of 3 wells (36), and every order of 4 tips x every order of 4 wells (576; quick: a stride sample of 96), with pairwise different per-tip volumes, on a plate and on a trough"
 
 
 def enumerate_cases(tier):
@@ -187,6 +187,12 @@ def enumerate_cases(tier):
             }
 
 
+    # every character a selection string can contain (7 wells per character): all 127 non-empty patterns of A01..G01,
+    # through the worklist (the stored record) and through the command function
+    for m in range(1, 128):
+        rows_ = [b for b in range(7) if m >> b & 1]
+        yield {"kind": "evo_aspirate" if m % 2 else "evo_dispense", "trough": False, "rows": 8, "cols": 12, "wells": [[r, 0] for r in rows_], "tips": list(range(1, len(rows_) + 1)),
+               "vols": [5.0 + i for i in range(len(rows_))], "grid": 20, "site": 3, "arm": 0, "lc": "Water", "M": 950, "stream": "core", "label": None, "vols_container": "list"}
     # the ends of every documented range: exactly on them (accepted) and one step outside (refused)
     wash_mid = {"tips": [1, 3], "waste_location": [30, 2], "cleaner_location": [31, 3], "arm": 0, "waste_vol": 3.0, "waste_delay": 500, "cleaner_vol": 4.0, "cleaner_delay": 500, "airgap": 10, "airgap_speed": 70, "retract_speed": 30, "fastwash": 1, "low_volume": 0}
     ranges = {"waste_grid": (1, 67), "waste_site": (1, 128), "cleaner_grid": (1, 67), "cleaner_site": (1, 128), "arm": (0, 1), "waste_vol": (0, 100), "waste_delay": (0, 1000), "cleaner_vol": (0, 100), "cleaner_delay": (0, 1000), "airgap": (0, 100), "airgap_speed": (1, 1000), "retract_speed": (1, 100), "fastwash": (0, 1), "low_volume": (0, 1)}
